@@ -337,7 +337,9 @@ func (cr *chainRun) installInSyncOracle(clause string) {
 const settleBudget = 45 * time.Minute
 
 // settle waits (simulated) until the node converged or the budget after the last change expired.
-func (cr *chainRun) settle() (bool, string) {
+func (cr *chainRun) settle() (bool, string) { return cr.settleWithin(settleBudget) }
+
+func (cr *chainRun) settleWithin(settleBudget time.Duration) (bool, string) {
 	ns := cr.ns
 	why := ""
 	for {
